@@ -54,7 +54,7 @@ class TranslateNode(Node, TranslatableTag):
     translations_var = "translations"
     message_count_var = "count"
     message_context_var = "context"
-    re_vars = re.compile(r"(?<!%)%\((\w+)\)s")
+    re_vars = re.compile(r"(?<!%)(?:%%)*%\((\w+)\)s")
 
     def __init__(
         self,
